@@ -15,6 +15,7 @@
 number."""
 
 from __future__ import annotations
+import copy
 import dataclasses
 from pathlib import Path
 from types import TracebackType
@@ -168,7 +169,10 @@ class _DatasetFillerContext:
 
         # Update custom_metadata is needed
         if custom_metadata:
-            current_progress.shard.shard_info.custom_metadata = custom_metadata
+            # Copy so that later changes of the caller's object neither relabel
+            # this shard nor hide the next metadata change.
+            current_progress.shard.shard_info.custom_metadata = copy.deepcopy(
+                custom_metadata)
 
         # Write the current example and update counters.
         current_progress.shard.write(values=values)
